@@ -1404,6 +1404,8 @@ class DepKind(AbsInt):
         return self._u([val])
 
     def external_call(self, name, node, fr):
+        if name and name.startswith('scipy.optimize.'):
+            return frozenset({'optimiser result'})  # an estimate, not a function of how its bounds were written
         vals = [self.value(a, fr) for a in node.args] + [self.value(k.value, fr) for k in node.keywords]
         if isinstance(node.func, ast.Attribute):
             vals.append(self.value(node.func.value, fr))
